@@ -174,6 +174,18 @@ def run_shard(spec, res):
             res.count('real_thread_executions')
             judge(sc, r, res, ld)
             res.case(('real', conc.trace_hash(r['events'])), True)
+        if spec['rem'] == 0:
+            # long runs of consecutive filtered examples (a corrupt stretch of a
+            # large dataset): everything else still arrives
+            for entry, n, lo, hi in (('pft', 1400, 100, 1300), ('pf1', 1400, 0, 1399),
+                                     ('pft', 1200, 0, 1200)):
+                sc = cs.make(entry, n, 4, 2 if entry == 'pft' else 1, catch='true',
+                             faults={'fn': {str(j): 'filter' for j in range(lo, hi)}})
+                r = rt.run(sc, 11, on_hang=hang_exit(res, sc, 11))
+                res.count('real_thread_executions')
+                res.count('long_runs_of_filtered_examples')
+                judge(sc, r, res, ld)
+                res.case(('real-long', entry, n, lo, hi), True)
         res.count('yield_injection_line_events', counter[0])
     else:
         run_proc(spec, res)
